@@ -56,12 +56,24 @@ func (f *fakeChain) addHeader(h *types.Header) {
 	f.headers[h.Hash()] = h
 	f.order = append(f.order, h)
 }
+
+// addBlock stores the block the way core.BlockChain.GetBlock returns it: the body is read without versions and then
+// block.SetVersion(version of the block's height) stamps that version on the header AND on every uncle, whatever the
+// uncle's own height is.
 func (f *fakeChain) addBlock(b *types.Block) {
 	if _, ok := f.blocks[b.Hash()]; ok {
 		return
 	}
-	f.blocks[b.Hash()] = b
-	f.border = append(f.border, b)
+	h := b.Header()
+	h.Version = 0
+	us := b.Uncles()
+	for _, u := range us {
+		u.Version = 0
+	}
+	nb := types.NewBlockWithHeader(h).WithBody(nil, us)
+	nb.SetVersion(f.cfg.GetBlockVersion(h.Number))
+	f.blocks[b.Hash()] = nb
+	f.border = append(f.border, nb)
 }
 func (f *fakeChain) Config() *params.ChainConfig  { return f.cfg }
 func (f *fakeChain) GetContext() context.Context  { return context.Background() }
@@ -124,7 +136,20 @@ func blockTok(b *types.Block, cfg *params.ChainConfig, seal func(*types.Header) 
 	for _, u := range us {
 		u.Version = cfg.GetBlockVersion(u.Number)
 	}
-	return hdrTok(b.Header(), seal(b.Header())) + "|" + fmt.Sprint(int(b.Version())) + "|" + hdrsTok(us, seal)
+	// the hashes of the same uncles as a chain reader hands them over: under the including block's version
+	stamped := []string{}
+	for _, u := range b.Uncles() {
+		u.Version = b.Version()
+		if u.Version == 0 {
+			u.Version = cfg.GetBlockVersion(u.Number)
+		}
+		stamped = append(stamped, u.Hash().Hex())
+	}
+	st := "-"
+	if len(stamped) > 0 {
+		st = strings.Join(stamped, ";")
+	}
+	return hdrTok(b.Header(), seal(b.Header())) + "|" + fmt.Sprint(int(b.Version())) + "|" + hdrsTok(us, seal) + "|" + st
 }
 func blocksTok(bs []*types.Block, cfg *params.ChainConfig, seal func(*types.Header) int) string {
 	if len(bs) == 0 {
@@ -627,6 +652,30 @@ func (e *env) uncleCounts() {
 			if cfg.HF[f] == nil {
 				continue
 			}
+			// second inclusion of an uncle: uncle at height u, first included by the ancestor at height i, offered again
+			// by the block at height j (u < i < j <= u+6), on both sides of the fork; the chain reader stamps the past
+			// uncle with the version of block i
+			fk := cfg.HF[f].Int64()
+			for _, t := range [][3]int64{{-1, 0, 1}, {-1, 0, 4}, {-1, 1, 2}, {-2, 0, 1}, {-2, 1, 3}, {-3, 0, 2}, {-1, 3, 4}, {0, 1, 2}, {-3, -2, -1}, {-2, -1, 0}} {
+				u, i, j := fk+t[0], fk+t[1], fk+t[2]
+				if u < 1 {
+					continue
+				}
+				all, blocks, hdr, _ := e.treeAt(c.Rng, cfg, j, 0, now)
+				first := all[0].Number.Int64()
+				iu, ii := int(u-first), int(i-first)
+				if iu < 1 || ii >= len(all) {
+					continue
+				}
+				var gpu *types.Header
+				if iu >= 2 {
+					gpu = all[iu-2]
+				}
+				un := child(c.Rng, cfg, all[iu-1], gpu, 33) // a sibling of the main-chain block at height u
+				un.Version = cfg.GetBlockVersion(un.Number)
+				blocks[ii] = types.NewBlockWithHeader(all[ii]).WithBody(nil, []*types.Header{un})
+				e.checkUncles(fmt.Sprintf("twice/hf%d/u%+d/i%+d/j%+d", f, t[0], t[1], t[2]), cfg, all, blocks, hdr, []*types.Header{types.CopyHeader(un)}, false)
+			}
 			for d := int64(-2); d <= 2; d++ {
 				height := cfg.HF[f].Int64() + d
 				if height < 2 || done[height] {
@@ -641,19 +690,11 @@ func (e *env) uncleCounts() {
 					e.checkUncles(fmt.Sprintf("count/hf%d%+d/uncles=%d", f, d, n), cfg, all, blocks, hdr, us, false)
 				}
 				// the hash of an uncle is taken under the version of the UNCLE's height: across a version-changing fork an
-				// ancestor offered as uncle, and an uncle already included by the parent, must still be recognised
+				// ancestor offered as uncle must still be recognised
 				if d >= 0 && d <= 1 && height >= 3 {
 					all, blocks, hdr, _ := e.treeAt(c.Rng, cfg, height, 0, now)
 					last := len(all) - 1
 					e.checkUncles(fmt.Sprintf("across/hf%d%+d/grandparent-as-uncle", f, d), cfg, all, blocks, hdr, []*types.Header{types.CopyHeader(all[last-1])}, false)
-					var ggp *types.Header
-					if last >= 3 {
-						ggp = all[last-3]
-					}
-					u := child(c.Rng, cfg, all[last-2], ggp, 33) // sibling of the grandparent, included by the parent block
-					u.Version = cfg.GetBlockVersion(u.Number)
-					blocks[last] = types.NewBlockWithHeader(all[last]).WithBody(nil, []*types.Header{u})
-					e.checkUncles(fmt.Sprintf("across/hf%d%+d/already-included", f, d), cfg, all, blocks, hdr, []*types.Header{types.CopyHeader(u)}, false)
 				}
 			}
 		}
@@ -732,6 +773,115 @@ func (e *env) insertChainUncles() {
 						"InsertChain of a generated chain whose block at this height carries this many real (valid, recent, distinct) uncles: the verdict differs from the rule (at most 2 uncles before HF5, at most 1 from the HF5 block on)",
 						map[string]string{"config": cfgTok(cfg), "height": fmt.Sprint(height), "uncles": fmt.Sprint(n), "verdict": verdict, "expected": want})
 				}
+			}
+		}
+	}
+}
+
+// importVerdict: core.GenerateChain builds `length` blocks on a fresh genesis of cfg (gen customises them), a fresh
+// core.BlockChain imports them with InsertChain; "ok" or "rejected at #N: <error class>".
+func importVerdict(cfg *params.ChainConfig, length int, gen func(int, *core.BlockGen)) (verdict string) {
+	pan, pv := vh.CatchPanic(func() {
+		db := aquadb.NewMemDatabase()
+		gspec := &core.Genesis{Config: cfg, Difficulty: big.NewInt(46039386)}
+		genesis := gspec.MustCommit(db)
+		chain, _ := core.GenerateChain(context.Background(), cfg, genesis, aquahash.NewFaker(), db, length, gen)
+		db2 := aquadb.NewMemDatabase()
+		gspec.MustCommit(db2)
+		bc, err := core.NewBlockChain(context.Background(), db2, nil, cfg, aquahash.NewFaker(), vm.Config{})
+		if err != nil {
+			verdict = "setup " + err.Error()
+			return
+		}
+		defer bc.Stop()
+		if idx, err := bc.InsertChain(chain); err != nil {
+			verdict = fmt.Sprintf("rejected at #%d: %s", chain[idx].NumberU64(), classify(err))
+		} else {
+			verdict = "ok"
+		}
+	})
+	if pan {
+		verdict = fmt.Sprintf("panic %v", pv)
+	}
+	return
+}
+
+// insertChainTwice: uncle identity through the real chain (core.BlockChain.GetBlock stamps a block's uncles with the
+// INCLUDING block's version).  Around each version-changing fork f (HF5, HF8, HF9 on schedules where it is at height 4):
+// a sibling of the main-chain block at height u in f-3..f+1 is included by block i (u < i <= u+6: accepted, once) and
+// again by block j (i < j <= u+6: must be rejected as duplicate); and a main-chain block a below the fork is offered as
+// uncle by a block at or above it (must be rejected as ancestor).  Quick tier: every (u,i,j) with u < f <= i plus a
+// few on one side; thorough: all.
+func (e *env) insertChainTwice() {
+	c := e.c
+	const f = 4
+	scheds := []struct {
+		fork int
+		cfg  *params.ChainConfig
+	}{
+		{5, customCfg(4251, map[int]int64{1: 0, 2: 0, 3: 0, 5: f})},
+		{8, customCfg(4252, map[int]int64{1: 0, 2: 0, 3: 0, 5: 0, 6: 0, 8: f})},
+		{9, customCfg(4253, map[int]int64{1: 0, 2: 0, 3: 0, 5: 0, 6: 0, 8: 0, 9: f})},
+	}
+	for _, sc := range scheds {
+		cfg := sc.cfg
+		for u := int64(f - 3); u <= f+1; u++ {
+			for i := u + 1; i <= u+6; i++ {
+				for j := i + 1; j <= u+6; j++ {
+					across := u < f && i >= f
+					if !c.Thorough() && !across && !(j == i+1 && (i == u+1 || i == u+5)) {
+						continue
+					}
+					uu, ii, jj := u, i, j
+					verdict := importVerdict(cfg, int(jj), func(k int, gen *core.BlockGen) {
+						if n := int64(k + 1); n == ii || n == jj {
+							uh := gen.PrevBlock(int(uu) - 1).Header() // the main-chain block at height u, re-mined: its sibling
+							uh.Extra = []byte("sibling")
+							gen.AddUncle(uh)
+						}
+					})
+					want := fmt.Sprintf("rejected at #%d: err duplicate-uncle", jj)
+					key := ""
+					if verdict == want {
+						key = fmt.Sprintf("twice/hf%d/%d/%d/%d", sc.fork, u, i, j)
+					}
+					c.Eval(fmt.Sprintf("insertchain-twice/hf%d/across=%v", sc.fork, across), key)
+					if verdict != want {
+						c.Violate(fmt.Sprintf("insertchain-uncle-included-twice/%s/uncle=%d/first=%d/second=%d/%s", cfgTok(cfg), u, i, j, verdict),
+							"InsertChain: a sibling of the main-chain block at `uncle` is included by block `first` and again by block `second` (both within its 6-block window): the first inclusion must be accepted and the second rejected as duplicate (the uncle would be rewarded twice)",
+							map[string]string{"config": cfgTok(cfg), "version_fork": fmt.Sprintf("HF%d at %d", sc.fork, f), "uncle_height": fmt.Sprint(u), "first_inclusion": fmt.Sprint(i), "second_inclusion": fmt.Sprint(j), "verdict": verdict, "expected": want})
+					}
+				}
+			}
+		}
+		// sibling accepted once (no second inclusion), and an ancestor offered as uncle across the fork
+		for _, ui := range [][2]int64{{f - 1, f}, {f - 1, f + 2}, {f - 2, f}, {f - 3, f + 1}, {f, f + 1}} {
+			uu, ii := ui[0], ui[1]
+			verdict := importVerdict(cfg, int(ii)+1, func(k int, gen *core.BlockGen) {
+				if int64(k+1) == ii {
+					uh := gen.PrevBlock(int(uu) - 1).Header()
+					uh.Extra = []byte("sibling")
+					gen.AddUncle(uh)
+				}
+			})
+			c.Eval(fmt.Sprintf("insertchain-once/hf%d", sc.fork), fmt.Sprintf("once/hf%d/%d/%d", sc.fork, uu, ii))
+			if verdict != "ok" {
+				c.Violate(fmt.Sprintf("insertchain-uncle-once/%s/uncle=%d/included=%d/%s", cfgTok(cfg), uu, ii, verdict), "InsertChain rejects a block with one valid recent uncle",
+					map[string]string{"config": cfgTok(cfg), "uncle_height": fmt.Sprint(uu), "included_at": fmt.Sprint(ii), "verdict": verdict})
+			}
+		}
+		for _, aj := range [][2]int64{{f - 1, f + 1}, {f - 1, f + 3}, {f - 2, f}, {f - 2, f + 2}, {f - 3, f}} {
+			a, j := aj[0], aj[1]
+			verdict := importVerdict(cfg, int(j), func(k int, gen *core.BlockGen) {
+				if int64(k+1) == j {
+					gen.AddUncle(gen.PrevBlock(int(a) - 1).Header())
+				}
+			})
+			want := fmt.Sprintf("rejected at #%d: err uncle-is-ancestor", j)
+			c.Eval(fmt.Sprintf("insertchain-ancestor-as-uncle/hf%d", sc.fork), "")
+			if verdict != want {
+				c.Violate(fmt.Sprintf("insertchain-ancestor-as-uncle/%s/ancestor=%d/block=%d/%s", cfgTok(cfg), a, j, verdict), "InsertChain: a block offers one of its own ancestors as uncle",
+					map[string]string{"config": cfgTok(cfg), "ancestor": fmt.Sprint(a), "block": fmt.Sprint(j), "verdict": verdict, "expected": want})
 			}
 		}
 	}
@@ -1588,7 +1738,14 @@ func (e *env) checkUncles(kind string, cfg *params.ChainConfig, all []*types.Hea
 	if strings.HasPrefix(kind, "count/") {
 		c.Count("uncle-count-verdict/" + kind[strings.LastIndex(kind, "/")+1:] + "/" + obs)
 	}
-	c.Correspond("VerifyUncles~verify_uncles", cas, obs, e.m.Ask(cas))
+	mod := e.m.Ask(cas)
+	c.Correspond("VerifyUncles~verify_uncles", cas, obs, mod)
+	asStamped := false
+	if mod != obs {
+		// diagnosis: does the implementation behave like the model variant that takes the identity of past uncles as
+		// stamped by the chain reader (including block's version) instead of re-stamping them with their own height's?
+		asStamped = e.m.Ask("uncles-as-stamped"+cas[len("uncles"):]) == obs
+	}
 	// direct oracle: the uncle rules of the property statement, evaluated independently
 	v := e.unclesOK(cfg, now, all, blocks, hdr, us)
 	if (obs == "ok") != (v.rule == "") {
@@ -1608,6 +1765,14 @@ func (e *env) checkUncles(kind string, cfg *params.ChainConfig, all []*types.Hea
 				c.Violate("uncles-historic-whitelist-on-any-chain", "below block ~15008 an uncle that is not recent but whose ParentHash equals a hard-coded mainnet hash (with the matching number) makes VerifyUncles return nil at once, on every chain configuration: it and the remaining uncles are not validated", rep)
 				return
 			}
+		}
+		if obs == "ok" && v.rule == "duplicate" {
+			u := us[v.idx]
+			rep["config"], rep["height"], rep["uncle_height"], rep["verdict"] = cfgTok(cfg), hdr.Number.String(), u.Number.String(), obs
+			rep["behaves_like_identity_as_stamped_by_chain_reader"] = fmt.Sprint(asStamped)
+			c.Violate(fmt.Sprintf("uncle-included-twice/%s/block=%s/uncle=%s", cfgTok(cfg), hdr.Number, u.Number),
+				"VerifyUncles accepts an uncle that one of the last 7 ancestors already included (it would be rewarded twice)", rep)
+			return
 		}
 		if v.rule == "count" || obs == "err too-many-uncles" {
 			rep["config"], rep["height"], rep["uncles"], rep["verdict"] = cfgTok(cfg), hdr.Number.String(), fmt.Sprint(len(us)), obs
@@ -1720,6 +1885,9 @@ func main() {
 	e.forkEdges()
 	e.uncleCounts()
 	e.insertChainUncles()
+	t0 := time.Now()
+	e.insertChainTwice()
+	c.Note("insertChainTwice took %.1fs", time.Since(t0).Seconds())
 	e.versions()
 	e.difficultyLattice()
 	e.headerRules()
